@@ -40,7 +40,30 @@ func symbolNeedsQuoting(sym string) bool {
 		}
 	}
 
-	return false
+	// An unquoted $ion_1_0 at top level is a version marker, not a symbol value.
+	return isVersionMarkerText(sym)
+}
+
+// Is this text of the form $ion_<digits>_<digits>, which unquoted denotes an Ion version marker?
+func isVersionMarkerText(sym string) bool {
+	if !strings.HasPrefix(sym, "$ion_") {
+		return false
+	}
+	parts := strings.Split(sym[len("$ion_"):], "_")
+	if len(parts) != 2 {
+		return false
+	}
+	for _, p := range parts {
+		if len(p) == 0 {
+			return false
+		}
+		for i := 0; i < len(p); i++ {
+			if !isDigit(int(p[i])) {
+				return false
+			}
+		}
+	}
+	return true
 }
 
 // Is this a valid first character for an identifier?
